@@ -212,6 +212,223 @@ Section Decision.
     exists k1, pl1, pl2, kb1, kb2. repeat split; assumption.
   Qed.
 
+  (* ---------------- the TLS caller ---------------- *)
+  Notation tls_scan := (tls_scan on_curve).
+  Notation tls_verify := (tls_verify on_curve verify).
+  Notation tls_accept := (tls_accept on_curve verify).
+
+  (* once an extension was found, the rest of the list may only hold ignorable extensions *)
+  Lemma tls_scan_found f l r :
+    tls_scan (Some f) l = ScanOk r -> r = Some f /\ Forall ignorable l.
+  Proof.
+    induction l as [|x l IH]; cbn [Model.tls_scan].
+    - intros [= <-]. auto.
+    - destruct x as [c|[|]]; try discriminate.
+      intros E. destruct (IH E) as [-> F]. split; [reflexivity|]. constructor; [reflexivity|exact F].
+  Qed.
+
+  Lemma tls_scan_found_complete f l : Forall ignorable l -> tls_scan (Some f) l = ScanOk (Some f).
+  Proof.
+    induction 1 as [|x l I F IH]; cbn [Model.tls_scan]; [reflexivity|]. rewrite I. exact IH.
+  Qed.
+
+  (* the scan succeeds with (k, sg) exactly on: ignorable*, one libp2p extension that decodes to
+     (kb, sg) with kb admitted as k, ignorable* *)
+  Lemma tls_scan_ok l k sg :
+    tls_scan None l = ScanOk (Some (k, sg)) ->
+    exists l1 kb l2,
+      l = l1 ++ XP2p (Some (kb, sg)) :: l2 /\ Forall ignorable l1 /\ Forall ignorable l2 /\
+      decode_pubkey kb = KeyOk k.
+  Proof.
+    induction l as [|x l IH]; cbn [Model.tls_scan]; [discriminate|].
+    destruct x as [[[kb sg']|]|[|]]; try discriminate.
+    - destruct (decode_pubkey kb) as [k'|e] eqn:DK; [|discriminate].
+      intros E. destruct (tls_scan_found _ _ _ E) as [[= -> ->] F].
+      exists [], kb, l. repeat split; auto.
+    - intros E. destruct (IH E) as (l1 & kb & l2 & -> & F1 & F2 & DK).
+      exists (XOther false :: l1), kb, l2. repeat split; auto. constructor; [reflexivity|exact F1].
+  Qed.
+
+  Lemma tls_scan_ok_complete l1 kb sg l2 k :
+    Forall ignorable l1 -> Forall ignorable l2 -> decode_pubkey kb = KeyOk k ->
+    tls_scan None (l1 ++ XP2p (Some (kb, sg)) :: l2) = ScanOk (Some (k, sg)).
+  Proof.
+    intros F1 F2 DK. induction F1 as [|x l I F IH]; cbn [app Model.tls_scan].
+    - rewrite DK. apply tls_scan_found_complete. exact F2.
+    - rewrite I. exact IH.
+  Qed.
+
+  Lemma tls_accept_sound l spki expected p :
+    tls_accept l spki expected = Accept p ->
+    exists l1 kb sg l2 k,
+      l = l1 ++ XP2p (Some (kb, sg)) :: l2 /\ Forall ignorable l1 /\ Forall ignorable l2 /\
+      decode_pubkey kb = KeyOk k /\
+      verify k (TLS_PREFIX ++ spki) sg = true /\
+      p = peer_id_of_key k /\ (expected = None \/ expected = Some p).
+  Proof.
+    unfold Model.tls_accept. intros A. apply check_dialed_accept in A as [A D].
+    unfold Model.tls_verify in A.
+    destruct (tls_scan None l) as [e|[[k sg]|]] eqn:S; try discriminate.
+    destruct (verify k (TLS_PREFIX ++ spki) sg) eqn:V; [|discriminate].
+    injection A as <-.
+    destruct (tls_scan_ok _ _ _ S) as (l1 & kb & l2 & E & F1 & F2 & DK).
+    exists l1, kb, sg, l2, k. repeat split; auto.
+  Qed.
+
+  Lemma tls_accept_complete l1 kb sg l2 k spki expected :
+    Forall ignorable l1 -> Forall ignorable l2 ->
+    decode_pubkey kb = KeyOk k -> verify k (TLS_PREFIX ++ spki) sg = true ->
+    (expected = None \/ expected = Some (peer_id_of_key k)) ->
+    tls_accept (l1 ++ XP2p (Some (kb, sg)) :: l2) spki expected = Accept (peer_id_of_key k).
+  Proof.
+    intros F1 F2 DK V D. unfold Model.tls_accept, Model.tls_verify.
+    rewrite (tls_scan_ok_complete l1 kb sg l2 k F1 F2 DK), V.
+    destruct D as [-> | ->]; cbn [check_dialed]; [reflexivity|]. rewrite pid_eqb_refl. reflexivity.
+  Qed.
+
+  Lemma tls_reject_mismatch l spki p q :
+    tls_verify l spki = Accept p -> q <> p ->
+    tls_accept l spki (Some q) = Reject EMismatch.
+  Proof.
+    intros A N. unfold Model.tls_accept. rewrite A. cbn [check_dialed]. rewrite (pid_eqb_neq _ _ N). reflexivity.
+  Qed.
+
+  (* a critical extension that is not libp2p's, anywhere in the certificate: never accepted *)
+  Lemma tls_critical_refused l spki expected p :
+    In (XOther true) l -> tls_accept l spki expected <> Accept p.
+  Proof.
+    intros I A. apply tls_accept_sound in A as (l1 & kb & sg & l2 & k & -> & F1 & F2 & _).
+    apply in_app_or in I as [I|[I|I]]; try discriminate.
+    - rewrite Forall_forall in F1. specialize (F1 _ I). discriminate.
+    - rewrite Forall_forall in F2. specialize (F2 _ I). discriminate.
+  Qed.
+
+  (* two extensions with the libp2p OID, whatever they hold: never accepted *)
+  Lemma tls_duplicate_refused la c1 lb c2 lc spki expected p :
+    tls_accept (la ++ XP2p c1 :: lb ++ XP2p c2 :: lc) spki expected <> Accept p.
+  Proof.
+    intros A. apply tls_accept_sound in A as (l1 & kb & sg & l2 & k & E & F1 & F2 & _).
+    assert (C : forall c l, Forall ignorable l -> ~ In (XP2p c) l).
+    { intros c l F I. rewrite Forall_forall in F. specialize (F _ I). discriminate. }
+    assert (I1 : In (XP2p c1) (l1 ++ XP2p (Some (kb, sg)) :: l2)).
+    { rewrite <- E. apply in_or_app. right. left. reflexivity. }
+    assert (I2 : In (XP2p c2) (l1 ++ XP2p (Some (kb, sg)) :: l2)).
+    { rewrite <- E. apply in_or_app. right. right. apply in_or_app. right. left. reflexivity. }
+    (* both occurrences must be the one admitted extension: count the libp2p extensions *)
+    assert (Cnt : forall l, Forall ignorable l -> length (filter (fun x => match x with XP2p _ => true | _ => false end) l) = 0%nat).
+    { intros l F. induction F as [|x l I F IH]; [reflexivity|]. rewrite I. cbn. exact IH. }
+    pose (isp := fun x => match x with XP2p _ => true | XOther _ => false end).
+    assert (L : length (filter isp (la ++ XP2p c1 :: lb ++ XP2p c2 :: lc)) =
+                length (filter isp (l1 ++ XP2p (Some (kb, sg)) :: l2))) by (rewrite E; reflexivity).
+    rewrite !filter_app in L. cbn [filter isp] in L. rewrite !filter_app in L. cbn [filter isp] in L.
+    rewrite !app_length in L. cbn [length] in L. rewrite !app_length in L. cbn [length] in L.
+    fold isp in Cnt. rewrite (Cnt l1 F1), (Cnt l2 F2) in L. lia.
+  Qed.
+
+  (* key types: whatever carries a key blob whose Type field is not Ed25519 (RSA = 0 with the cargo
+     feature `rsa` off, Secp256k1 = 2, ECDSA = 3, anything else) is never accepted, on either path *)
+  Lemma non_ed25519_never_accepted kb m :
+    decode_keymsg kb = Some m -> k_type m <> 1 ->
+    (forall pb pl rs d p, decode_payload pb = Some pl -> p_key pl = Some kb -> accept pb rs d <> Accept p) /\
+    (forall l sg spki e p, In (XP2p (Some (kb, sg))) l -> tls_accept l spki e <> Accept p).
+  Proof.
+    intros M T. split.
+    - intros pb pl rs d p P K A. rewrite (reject_unknown_key_type pb rs d pl kb m P K M T) in A. discriminate.
+    - intros l sg spki e p I A.
+      apply tls_accept_sound in A as (l1 & kb' & sg' & l2 & k & -> & F1 & F2 & DK & _).
+      assert (E : kb' = kb).
+      { apply in_app_or in I as [I|[I|I]].
+        - rewrite Forall_forall in F1. specialize (F1 _ I). discriminate.
+        - injection I as -> _. reflexivity.
+        - rewrite Forall_forall in F2. specialize (F2 _ I). discriminate. }
+      subst kb'. destruct (decode_pubkey_ok _ _ DK) as (m' & M' & T' & _). congruence.
+  Qed.
+
+  (* an extension made for one certificate key is refused in a certificate with another key *)
+  Lemma tls_binding :
+    (forall pk m m' sg, verify pk m sg = true -> verify pk m' sg = true -> m = m') ->
+    forall l spki spki' e' p',
+      tls_accept l spki' e' = Accept p' -> spki <> spki' ->
+      forall e, tls_accept l spki e = Reject ETlsIssuer.
+  Proof.
+    intros SM l spki spki' e' p' A N e.
+    apply tls_accept_sound in A as (l1 & kb & sg & l2 & k & -> & F1 & F2 & DK & V & _ & _).
+    unfold Model.tls_accept, Model.tls_verify. rewrite (tls_scan_ok_complete l1 kb sg l2 k F1 F2 DK).
+    destruct (verify k (TLS_PREFIX ++ spki) sg) eqn:V2.
+    - pose proof (SM _ _ _ _ V V2) as E. apply app_inv_head in E. congruence.
+    - destruct e; reflexivity.
+  Qed.
+
+  (* ---------------- every caller, and the manager behind them ---------------- *)
+  Notation authentic := (authentic on_curve verify).
+
+  Lemma transport_verdict_sound t e ev p :
+    transport_verdict on_curve verify t e ev = Some (Accept p) ->
+    authentic ev p /\ (t = TWebRtc \/ e = None \/ e = Some p).
+  Proof.
+    destruct t, ev as [pb rs|l spki]; cbn [transport_verdict]; try discriminate; intros [= A].
+    - apply accept_sound in A as (pl & kb & sg & k & A). split; [exists pl, kb, sg, k; tauto|tauto].
+    - apply accept_sound in A as (pl & kb & sg & k & A). split; [exists pl, kb, sg, k; tauto|tauto].
+    - apply tls_accept_sound in A as (l1 & kb & sg & l2 & k & A). split; [exists l1, kb, sg, l2, k; tauto|tauto].
+    - apply accept_sound in A as (pl & kb & sg & k & A). split; [exists pl, kb, sg, k; tauto|auto].
+  Qed.
+
+  (* every dial, on every transport: an accepted connection is to the dialed peer and rests on
+     authentic evidence — by the transport's comparison or, failing that, by the manager's *)
+  Lemma every_dial_checked t addr_peer dialed ev p :
+    dial_outcome on_curve verify t addr_peer dialed ev = Some (Accept p) ->
+    p = dialed /\ authentic ev p.
+  Proof.
+    unfold dial_outcome. destruct (dial_setup t addr_peer) as [|e]; [discriminate|].
+    destruct (transport_verdict on_curve verify t e ev) as [r|] eqn:TV; [|discriminate].
+    cbn [omap]. intros [= M]. unfold manager_check in M.
+    apply check_dialed_accept in M as [-> [D|D]]; [discriminate|]. injection D as ->.
+    split; [reflexivity|]. exact (proj1 (transport_verdict_sound _ _ _ _ TV)).
+  Qed.
+
+  (* when the address handed to the transport names the dialed peer (the manager only dials such
+     addresses) the transport's own comparison already decides: the manager's changes nothing *)
+  Lemma transport_check_suffices t dialed ev :
+    t <> TWebRtc ->
+    dial_outcome on_curve verify t (Some dialed) dialed ev =
+    transport_verdict on_curve verify t (Some dialed) ev.
+  Proof.
+    intros NW. unfold dial_outcome.
+    assert (S : dial_setup t (Some dialed) = DialWith (Some dialed)) by (destruct t; try reflexivity; contradiction).
+    rewrite S. destruct (transport_verdict on_curve verify t (Some dialed) ev) as [[p|e]|] eqn:TV; cbn [omap]; try reflexivity.
+    - destruct (transport_verdict_sound _ _ _ _ TV) as [_ [W|[W|W]]]; try contradiction; try discriminate.
+      injection W as <-. unfold manager_check. cbn [check_dialed]. rewrite pid_eqb_refl. reflexivity.
+  Qed.
+
+  (* TCP dialed through an address WITHOUT /p2p: the transport compares nothing, the manager does *)
+  Lemma tcp_without_p2p_caught_by_manager pb rs p dialed :
+    verify_identity pb rs = Accept p -> dialed <> p ->
+    transport_verdict on_curve verify TTcp None (EvNoise pb rs) = Some (Accept p) /\
+    dial_outcome on_curve verify TTcp None dialed (EvNoise pb rs) = Some (Reject EMismatch).
+  Proof.
+    intros A N. unfold dial_outcome. cbn [dial_setup transport_verdict omap]. unfold Model.accept. rewrite A.
+    cbn [check_dialed]. split; [reflexivity|]. unfold manager_check. cbn [check_dialed].
+    rewrite (pid_eqb_neq _ _ N). reflexivity.
+  Qed.
+
+  (* where no dial path exists there is no outcome: WebRTC, and WebSocket / QUIC without /p2p *)
+  Lemma no_dial_without_expectation t addr_peer dialed ev r :
+    dial_outcome on_curve verify t addr_peer dialed ev = Some r ->
+    t = TTcp \/ (addr_peer <> None /\ (t = TWebSocket \/ t = TQuic)).
+  Proof.
+    unfold dial_outcome. destruct t, addr_peer; cbn [dial_setup]; try discriminate; intros _; auto;
+      right; split; auto; discriminate.
+  Qed.
+
+  (* inbound connections: whoever is reported presented authentic evidence (no expectation) *)
+  Lemma inbound_authentic t ev p :
+    inbound_outcome on_curve verify t ev = Some (Accept p) -> authentic ev p.
+  Proof.
+    unfold inbound_outcome. destruct (transport_verdict on_curve verify t None ev) as [r|] eqn:TV; [|discriminate].
+    cbn [omap]. unfold manager_check. intros [= M]. apply check_dialed_accept in M as [-> _].
+    exact (proj1 (transport_verdict_sound _ _ _ _ TV)).
+  Qed.
+
   (* ---------------- binding to the session's static key ---------------- *)
   Section Binding.
     (* the unforgeability idealisation: a signature is valid for one message only.  This is
@@ -389,6 +606,59 @@ Proof.
   change (1 =? 1) with true. change (2 =? 2) with true. cbn iota.
   rewrite (pchunk_app (len key) key) by (try exact Lk; unfold len; lia).
   cbn [p_sig].
+  rewrite dec_payload_step, pkey_18.
+  change (2 =? 1) with false. change (2 =? 2) with true. cbn iota.
+  rewrite (pchunk_all (len sg) sg) by (try exact Ls; unfold len; lia).
+  cbn [p_key]. rewrite dec_payload_nil. reflexivity.
+Qed.
+
+(* duplicate fields: the last one wins (prost replaces an optional bytes field) *)
+Lemma decode_payload_last_key_wins k1 k2 sg :
+  len k1 < 128 -> len k2 < 128 -> len sg < 128 ->
+  decode_payload ([10; len k1] ++ k1 ++ [10; len k2] ++ k2 ++ [18; len sg] ++ sg)
+  = Some (mkPayload (Some k2) (Some sg)).
+Proof.
+  intros L1 L2 Ls. unfold decode_payload.
+  set (l := [10; len k1] ++ k1 ++ [10; len k2] ++ k2 ++ [18; len sg] ++ sg).
+  generalize (fuel_for l) at 2. intros sf.
+  assert (F : exists f, fuel_for l = S (S (S f))).
+  { unfold fuel_for. subst l. cbn [app length].
+    match goal with |- context [S (S (length ?x))] => generalize (length x) end.
+    intros n. exists (2 * n + 3)%nat. lia. }
+  destruct F as [f ->]. subst l. cbn [app].
+  rewrite dec_payload_step, pkey_10.
+  change (1 =? 1) with true. change (2 =? 2) with true. cbn iota.
+  rewrite (pchunk_app (len k1) k1) by (try exact L1; unfold len; lia). cbn [p_sig app].
+  rewrite dec_payload_step, pkey_10.
+  change (1 =? 1) with true. change (2 =? 2) with true. cbn iota.
+  rewrite (pchunk_app (len k2) k2) by (try exact L2; unfold len; lia). cbn [p_sig app].
+  rewrite dec_payload_step, pkey_18.
+  change (2 =? 1) with false. change (2 =? 2) with true. cbn iota.
+  rewrite (pchunk_all (len sg) sg) by (try exact Ls; unfold len; lia).
+  cbn [p_key]. rewrite dec_payload_nil. reflexivity.
+Qed.
+
+(* an unknown varint field (here tag 3) between the two known ones is skipped *)
+Lemma decode_payload_unknown_field_skipped key v sg :
+  len key < 128 -> v < 128 -> len sg < 128 ->
+  decode_payload ([10; len key] ++ key ++ [24; v] ++ [18; len sg] ++ sg)
+  = Some (mkPayload (Some key) (Some sg)).
+Proof.
+  intros Lk Lv Ls. unfold decode_payload.
+  set (l := [10; len key] ++ key ++ [24; v] ++ [18; len sg] ++ sg).
+  assert (F : exists f, fuel_for l = S (S (S f))).
+  { unfold fuel_for. subst l. cbn [app length].
+    match goal with |- context [S (S (length ?x))] => generalize (length x) end.
+    intros n. exists (2 * n + 3)%nat. lia. }
+  destruct F as [f F]. rewrite F at 1. rewrite F. subst l. cbn [app].
+  rewrite dec_payload_step, pkey_10.
+  change (1 =? 1) with true. change (2 =? 2) with true. cbn iota.
+  rewrite (pchunk_app (len key) key) by (try exact Lk; unfold len; lia). cbn [p_sig app].
+  rewrite dec_payload_step.
+  rewrite (pkey_small 24) by (try lia; vm_compute; discriminate).
+  change (24 / 8) with 3. change (24 mod 8) with 0.
+  change (3 =? 1) with false. change (3 =? 2) with false. change (3 =? 4) with false. cbn iota.
+  cbn [skip RECURSION_LIMIT]. rewrite (pvarint_small v) by exact Lv.
   rewrite dec_payload_step, pkey_18.
   change (2 =? 1) with false. change (2 =? 2) with true. cbn iota.
   rewrite (pchunk_all (len sg) sg) by (try exact Ls; unfold len; lia).
@@ -704,7 +974,8 @@ Section Transcript.
     no_forgery D L a -> a2 a = DMsg m ->
     dec (KDF (dks1 D m)) (H (dtr1 D m)) (m2_s m) = Some s ->
     dec (KDF (dks2 D m s)) (H (dtr2 D m)) (m2_p m) = Some pl ->
-    a1 a = DMsg (dmsg1 D) /\ m = lmsg2 L (dmsg1 D) /\ s = pubk (sta L) /\ pl = pay L.
+    a1 a = DMsg (dmsg1 D) /\ m = lmsg2 L (dmsg1 D) /\ s = pubk (sta L) /\ pl = pay L /\
+    pro D = pro L.
   Proof.
     intros [NF _] A2 D1 D2. apply dec_some in D1. apply dec_some in D2.
     pose proof (NF m (m2_s m) _ _ _ A2 (or_introl eq_refl) D1 (or_introl eq_refl)) as I1.
@@ -713,14 +984,14 @@ Section Transcript.
     destruct d1 as [e1 pl1]. destruct m as [e cs cp]. cbn [m2_e m2_s m2_p] in *.
     (* first ciphertext *)
     assert (S1 : e1 = pubk (eph D) /\ pl1 = [] /\ e = pubk (eph L) /\ s = pubk (sta L) /\
-                 cs = lcs2 L (mkM1 e1 pl1)).
+                 cs = lcs2 L (mkM1 e1 pl1) /\ pro D = pro L).
     { destruct I1 as [I|[I|[]]]; pose proof D1 as E; rewrite <- I in E at 1.
       - unfold l_cs2 in E. injection E as _ Eh Es.
         apply H_inj in Eh. unfold l_tr1, d_tr1 in Eh. cbn [m1_e m1_pl m2_e] in Eh.
-        injection Eh as E1 E2 E3. repeat split; auto.
+        injection Eh as E0 E1 E2 E3. repeat split; auto.
       - unfold l_cp2 in E. injection E as _ Eh _. apply H_len in Eh.
         unfold l_tr2, l_tr1, d_tr1 in Eh. rewrite app_length in Eh. cbn [length] in Eh. lia. }
-    destruct S1 as (-> & -> & -> & -> & Ecs).
+    destruct S1 as (-> & -> & -> & -> & Ecs & Epro).
     assert (S2 : pl = pay L /\ cp = lcp2 L (mkM1 (pubk (eph D)) [])).
     { destruct I2 as [I|[I|[]]]; pose proof D2 as E; rewrite <- I in E at 1.
       - unfold l_cs2 in E. injection E as _ Eh _. apply H_len in Eh.
@@ -734,12 +1005,13 @@ Section Transcript.
   Lemma dialer_sent3 D L a m3 :
     no_forgery D L a -> fst (rund D a) = Some m3 ->
     a1 a = DMsg (dmsg1 D) /\ a2 a = DMsg (lmsg2 L (dmsg1 D)) /\
-    m3 = mkM3 (dcs3 D (lmsg2 L (dmsg1 D)) (pubk (sta L))) (dcp3 D (lmsg2 L (dmsg1 D)) (pubk (sta L))).
+    m3 = mkM3 (dcs3 D (lmsg2 L (dmsg1 D)) (pubk (sta L))) (dcp3 D (lmsg2 L (dmsg1 D)) (pubk (sta L))) /\
+    pro D = pro L.
   Proof.
     intros NF. unfold run_d, d_run. destruct (a2 a) as [m| |] eqn:A2; try discriminate.
     destruct (dec (KDF (dks1 D m)) (H (dtr1 D m)) (m2_s m)) as [s|] eqn:D1; [|discriminate].
     destruct (dec (KDF (dks2 D m s)) (H (dtr2 D m)) (m2_p m)) as [pl|] eqn:D2; [|discriminate].
-    destruct (dialer_reads_authentic D L a m s pl NF A2 D1 D2) as (A1 & -> & -> & ->).
+    destruct (dialer_reads_authentic D L a m s pl NF A2 D1 D2) as (A1 & -> & -> & -> & Epro).
     destruct (decode_payload (pay L)); [|discriminate]. cbn [fst]. intros [= <-]. auto.
   Qed.
 
@@ -753,16 +1025,29 @@ Section Transcript.
     intros NF. unfold run_d, d_run. destruct (a2 a) as [m| |] eqn:A2; try discriminate.
     destruct (dec (KDF (dks1 D m)) (H (dtr1 D m)) (m2_s m)) as [s|] eqn:D1; [|discriminate].
     destruct (dec (KDF (dks2 D m s)) (H (dtr2 D m)) (m2_p m)) as [pl|] eqn:D2; [|discriminate].
-    destruct (dialer_reads_authentic D L a m s pl NF A2 D1 D2) as (A1 & -> & -> & ->).
+    destruct (dialer_reads_authentic D L a m s pl NF A2 D1 D2) as (A1 & -> & -> & -> & _).
     unfold Model.verify_identity. destruct (decode_payload (pay L)) as [pp|]; [|discriminate].
     cbn [snd]. intros O. repeat split; auto.
     destruct (check_dialed (dialed_of D) (verify_payload on_curve verify pp (pubk (sta L)))); cbn [outcome_of] in O;
       [congruence|discriminate].
   Qed.
 
+  (* ... and that both sides used the same prologue *)
+  Lemma dialer_prologue D L a p :
+    no_forgery D L a -> snd (rund D a) = OAccept p -> pro D = pro L.
+  Proof.
+    intros NF. unfold run_d, d_run. destruct (a2 a) as [m| |] eqn:A2; try discriminate.
+    destruct (dec (KDF (dks1 D m)) (H (dtr1 D m)) (m2_s m)) as [s|] eqn:D1; [|discriminate].
+    destruct (dec (KDF (dks2 D m s)) (H (dtr2 D m)) (m2_p m)) as [pl|] eqn:D2; [|discriminate].
+    destruct (dialer_reads_authentic D L a m s pl NF A2 D1 D2) as (_ & _ & _ & _ & E). intros _. exact E.
+  Qed.
+
   Lemma ltr3_dtr3 D L :
-    ltr3 L (dmsg1 D) = dtr3 D (lmsg2 L (dmsg1 D)).
-  Proof. reflexivity. Qed.
+    pro D = pro L -> ltr3 L (dmsg1 D) = dtr3 D (lmsg2 L (dmsg1 D)).
+  Proof.
+    intros E. unfold l_tr3, l_tr2, l_tr1, d_tr3, d_tr2, d_tr1. cbn [m1_e m1_pl d_msg1 m2_e m2_s m2_p l_msg2].
+    rewrite E. reflexivity.
+  Qed.
 
   (* listener: accepting means that all three messages were delivered untouched and that the
      verdict is the decision layer's verdict on the dialer's genuine payload and static key *)
@@ -782,7 +1067,7 @@ Section Transcript.
     pose proof (NF2 d1 m (m3_s m) _ _ _ A1 A3 (or_introl eq_refl) D1 (or_introl eq_refl)) as I1.
     pose proof (NF2 d1 m (m3_p m) _ _ _ A1 A3 (or_intror eq_refl) D2 (or_intror eq_refl)) as I2.
     unfold d_cts in I1, I2. destruct (fst (rund D a)) as [m3|] eqn:S3; try contradiction.
-    destruct (dialer_sent3 D L a m3 NF S3) as (A1' & A2 & ->).
+    destruct (dialer_sent3 D L a m3 NF S3) as (A1' & A2 & -> & Epro).
     rewrite A1 in A1'. injection A1' as ->. cbn [m3_s m3_p] in I1, I2.
     set (m2 := lmsg2 L (dmsg1 D)) in *. set (sL := pubk (sta L)) in *.
     destruct m as [cs cp]. cbn [m3_s m3_p] in *.
@@ -790,13 +1075,13 @@ Section Transcript.
     { destruct I1 as [I|[I|[]]]; pose proof D1 as E; rewrite <- I in E at 1.
       - unfold d_cs3 in E. split; [congruence | symmetry; exact I].
       - unfold d_cp3 in E. injection E as _ Eh _. apply H_len in Eh.
-        unfold d_tr4 in Eh. rewrite app_length in Eh. subst m2. rewrite <- ltr3_dtr3 in Eh.
+        unfold d_tr4 in Eh. rewrite app_length in Eh. subst m2. rewrite <- (ltr3_dtr3 D L Epro) in Eh.
         cbn [length] in Eh. lia. }
     destruct S1 as (-> & ->).
     assert (S2 : pl = pay D /\ cp = dcp3 D m2 sL).
     { destruct I2 as [I|[I|[]]]; pose proof D2 as E; rewrite <- I in E at 1.
       - unfold d_cs3 in E. injection E as _ Eh _. apply H_len in Eh.
-        unfold l_tr4 in Eh. rewrite app_length in Eh. subst m2. rewrite <- ltr3_dtr3 in Eh.
+        unfold l_tr4 in Eh. rewrite app_length in Eh. subst m2. rewrite <- (ltr3_dtr3 D L Epro) in Eh.
         cbn [length] in Eh. lia.
       - unfold d_cp3 in E. split; [congruence | symmetry; exact I]. }
     destruct S2 as (-> & ->).
@@ -857,49 +1142,62 @@ Section Transcript.
     mkAttack (DMsg (dmsg1 D)) (DMsg m2)
              (match fst (drun D (DMsg m2)) with Some m3 => DMsg m3 | None => DShort end).
 
+  Lemma tr1_agree D L : pro D = pro L -> dtr1 D (lmsg2 L (dmsg1 D)) = ltr1 L (dmsg1 D).
+  Proof.
+    intros E. unfold d_tr1, l_tr1. cbn [m1_e m1_pl d_msg1 m2_e l_msg2]. rewrite E. reflexivity.
+  Qed.
+
+  Lemma tr2_agree D L : pro D = pro L -> dtr2 D (lmsg2 L (dmsg1 D)) = ltr2 L (dmsg1 D).
+  Proof. intros E. unfold d_tr2, l_tr2. rewrite (tr1_agree D L E). reflexivity. Qed.
+
   Lemma honest_dialer D L :
+    pro D = pro L ->
     snd (rund D (forward D L)) =
     outcome_of (check_dialed (dialed_of D) (videntity (pay L) (pubk (sta L)))).
   Proof.
+    intros EP. pose proof (tr1_agree D L EP) as T1. pose proof (tr2_agree D L EP) as T2.
     unfold run_d, forward. cbn [a2]. unfold d_run.
-    set (m2 := lmsg2 L (dmsg1 D)).
+    set (m2 := lmsg2 L (dmsg1 D)) in *.
     assert (K1 : KDF (dks1 D m2) = KDF (l_ks1 dh L (dmsg1 D))).
     { unfold d_ks1, l_ks1. subst m2. cbn [m2_e l_msg2 m1_e d_msg1]. rewrite dh_comm. reflexivity. }
     assert (E1 : m2_s m2 = Ct (KDF (dks1 D m2)) (H (dtr1 D m2)) (pubk (sta L))).
-    { rewrite K1. reflexivity. }
+    { rewrite K1, T1. reflexivity. }
     rewrite E1 at 1. rewrite dec_ct.
     assert (K2 : KDF (dks2 D m2 (pubk (sta L))) = KDF (lks2 L (dmsg1 D))).
     { unfold d_ks2, l_ks2, d_ks1, l_ks1. subst m2. cbn [m2_e l_msg2 m1_e d_msg1].
       rewrite (dh_comm (eph D) (eph L)), (dh_comm (eph D) (sta L)). reflexivity. }
     assert (E2 : m2_p m2 = Ct (KDF (dks2 D m2 (pubk (sta L)))) (H (dtr2 D m2)) (pay L)).
-    { rewrite K2. reflexivity. }
+    { rewrite K2, T2. reflexivity. }
     rewrite E2 at 1. rewrite dec_ct.
     unfold Model.verify_identity. destruct (decode_payload (pay L)); cbn [snd]; [reflexivity|].
     destruct (dialed_of D); reflexivity.
   Qed.
 
   Lemma honest_listener D L :
+    pro D = pro L ->
     decode_payload (pay L) <> None ->
     runl L (forward D L) =
     outcome_of (check_dialed (dialed_of L) (videntity (pay D) (pubk (sta D)))).
   Proof.
-    intros PL. unfold run_l, forward. cbn [a1 a3]. unfold d_run.
-    set (m1 := dmsg1 D). set (m2 := lmsg2 L m1).
+    intros EP PL. pose proof (tr1_agree D L EP) as T1. pose proof (tr2_agree D L EP) as T2.
+    pose proof (ltr3_dtr3 D L EP) as T3.
+    unfold run_l, forward. cbn [a1 a3]. unfold d_run.
+    set (m1 := dmsg1 D) in *. set (m2 := lmsg2 L m1) in *.
     assert (K1 : KDF (dks1 D m2) = KDF (l_ks1 dh L m1)).
     { unfold d_ks1, l_ks1. subst m2 m1. cbn [m2_e l_msg2 m1_e d_msg1]. rewrite dh_comm. reflexivity. }
     assert (E1 : m2_s m2 = Ct (KDF (dks1 D m2)) (H (dtr1 D m2)) (pubk (sta L))).
-    { rewrite K1. reflexivity. }
+    { rewrite K1, T1. reflexivity. }
     rewrite E1 at 1. rewrite dec_ct.
     assert (K2 : KDF (dks2 D m2 (pubk (sta L))) = KDF (lks2 L m1)).
     { unfold d_ks2, l_ks2, d_ks1, l_ks1. subst m2 m1. cbn [m2_e l_msg2 m1_e d_msg1].
       rewrite (dh_comm (eph D) (eph L)), (dh_comm (eph D) (sta L)). reflexivity. }
     assert (E2 : m2_p m2 = Ct (KDF (dks2 D m2 (pubk (sta L)))) (H (dtr2 D m2)) (pay L)).
-    { rewrite K2. reflexivity. }
+    { rewrite K2, T2. reflexivity. }
     rewrite E2 at 1. rewrite dec_ct.
     destruct (decode_payload (pay L)) as [pp|]; [|congruence]. cbn [fst].
     unfold l_run2. cbn [m3_s m3_p].
     assert (E3 : dcs3 D m2 (pubk (sta L)) = Ct (KDF (lks2 L m1)) (H (ltr3 L m1)) (pubk (sta D))).
-    { unfold d_cs3. rewrite K2. reflexivity. }
+    { unfold d_cs3. rewrite K2, T3. reflexivity. }
     rewrite E3 at 1. rewrite dec_ct.
     assert (K3 : KDF (d_ks3 dh D m2 (pubk (sta L))) = KDF (lks3 L m1 (pubk (sta D)))).
     { unfold d_ks3, l_ks3, d_ks2, l_ks2, d_ks1, l_ks1. subst m2 m1. cbn [m2_e l_msg2 m1_e d_msg1].
@@ -907,8 +1205,73 @@ Section Transcript.
       reflexivity. }
     set (h4 := H (ltr4 L m1 (mkM3 (dcs3 D m2 (pubk (sta L))) (dcp3 D m2 (pubk (sta L)))))).
     assert (E4 : dcp3 D m2 (pubk (sta L)) = Ct (KDF (lks3 L m1 (pubk (sta D)))) h4 (pay D)).
-    { unfold d_cp3. rewrite K3. reflexivity. }
+    { unfold d_cp3. rewrite K3. subst h4. unfold l_tr4, d_tr4. rewrite T3. reflexivity. }
     rewrite E4. rewrite dec_ct. reflexivity.
+  Qed.
+
+  (* ---------------- the order of events in XX ---------------- *)
+  (* the dialer finishes first: with message 3 withheld it has already accepted (it returns from
+     handshake() after WRITING message 3) while the listener ends with an I/O error *)
+  Definition withhold3 (D L : party) : attack :=
+    mkAttack (DMsg (dmsg1 D)) (DMsg (lmsg2 L (dmsg1 D))) DShort.
+
+  Lemma dialer_finishes_first D L :
+    pro D = pro L ->
+    no_forgery D L (withhold3 D L) /\
+    snd (rund D (withhold3 D L)) =
+      outcome_of (check_dialed (dialed_of D) (videntity (pay L) (pubk (sta L)))) /\
+    runl L (withhold3 D L) = OIo.
+  Proof.
+    intros EP. split; [|split].
+    - split.
+      + intros m c k h pt A2 C _ _. unfold withhold3 in A2. cbn [a2] in A2. injection A2 as <-.
+        unfold l_cts, withhold3. cbn [a1 l_msg2 m2_s m2_p] in *. destruct C as [-> | ->]; cbn; auto.
+      + intros d1 m c k h pt _ A3. unfold withhold3 in A3. cbn [a3] in A3. discriminate.
+    - exact (honest_dialer D L EP).
+    - reflexivity.
+  Qed.
+
+  (* the dialer writes message 3 — its own identity payload, readable by whoever holds the static
+     key it has just been given — BEFORE it checks the listener's signature: whenever the payload
+     of message 2 decodes, message 3 is sent whatever the verdict *)
+  Lemma dialer_writes_3_before_verdict D m s pl pp :
+    dec (KDF (dks1 D m)) (H (dtr1 D m)) (m2_s m) = Some s ->
+    dec (KDF (dks2 D m s)) (H (dtr2 D m)) (m2_p m) = Some pl ->
+    decode_payload pl = Some pp ->
+    drun D (DMsg m) =
+      (Some (mkM3 (dcs3 D m s) (dcp3 D m s)),
+       outcome_of (check_dialed (dialed_of D) (verify_payload on_curve verify pp s))).
+  Proof. intros D1 D2 P. unfold d_run. rewrite D1, D2, P. reflexivity. Qed.
+
+  (* what the listener has learnt when it writes message 2: nothing about the dialer but the
+     ephemeral key — its answer is the same for all dialers that sent the same message 1 *)
+  Lemma listener_answer_ignores_identity D D' L :
+    dmsg1 D = dmsg1 D' -> lmsg2 L (dmsg1 D) = lmsg2 L (dmsg1 D').
+  Proof. intros ->. reflexivity. Qed.
+
+  (* the listener accepts last, and only if the dialer got as far as writing message 3 *)
+  Lemma listener_prologue D L a p :
+    no_forgery D L a -> runl L a = OAccept p -> pro D = pro L /\ fst (rund D a) <> None.
+  Proof.
+    intros NF. unfold run_l, l_run2.
+    destruct (a1 a) as [d1| |] eqn:A1; try discriminate.
+    destruct (a3 a) as [m| |] eqn:A3; try discriminate.
+    destruct (dec (KDF (lks2 L d1)) (H (ltr3 L d1)) (m3_s m)) as [s|] eqn:D1; [|discriminate].
+    intros _. apply dec_some in D1. pose proof NF as [_ NF2].
+    pose proof (NF2 d1 m (m3_s m) _ _ _ A1 A3 (or_introl eq_refl) D1 (or_introl eq_refl)) as I1.
+    unfold d_cts in I1. destruct (fst (rund D a)) as [m3|] eqn:S3; try contradiction.
+    destruct (dialer_sent3 D L a m3 NF S3) as (_ & _ & _ & Epro). split; [exact Epro|discriminate].
+  Qed.
+
+  (* the WebRTC prologue binds the handshake to the two DTLS fingerprints: with different
+     prologues neither side accepts, whatever is delivered *)
+  Lemma prologue_binds D L a :
+    no_forgery D L a -> pro D <> pro L ->
+    (forall p, snd (rund D a) <> OAccept p) /\ (forall p, runl L a <> OAccept p).
+  Proof.
+    intros NF NE. split; intros p O.
+    - exact (NE (dialer_prologue D L a p NF O)).
+    - destruct (listener_prologue D L a p NF O) as [E _]. exact (NE E).
   Qed.
 
   (* forwarding everything is not a forgery: the hypothesis of the theorems is satisfiable *)
@@ -953,4 +1316,80 @@ Proof.
   - destruct j as [x|[k h pt|x]]; discriminate E.
   - destruct i as [x|[k h pt|x]]; discriminate E.
   - apply ser_item_inj in E as [-> E]. f_equal. apply IH. exact E.
+Qed.
+
+(* ------------------------------------------------------------------ framing of handshake messages *)
+(* what first_message / second_message write is read back exactly, and the rest of the stream is
+   not touched: read_handshake_message never reads ahead *)
+Lemma read_frame_frame b rest :
+  len b < 65536 -> read_frame (frame b ++ rest) = Some (b, rest).
+Proof.
+  intros L. unfold frame, read_frame. cbn [app].
+  assert (E : len b / 256 * 256 + len b mod 256 = len b).
+  { rewrite N.mul_comm. symmetry. apply N.div_mod. discriminate. }
+  rewrite E. unfold len. rewrite Nat2N.id.
+  assert (Lt : (length (b ++ rest) <? length b)%nat = false).
+  { apply Nat.ltb_ge. rewrite app_length. lia. }
+  clear L. rewrite Lt. rewrite firstn_app, Nat.sub_diag, firstn_all, firstn_O, app_nil_r.
+  rewrite skipn_app, Nat.sub_diag, skipn_all. reflexivity.
+Qed.
+
+(* conversely: a frame that was read is the length prefix, exactly that many bytes, and the rest *)
+Lemma read_frame_exact s b r :
+  bytes_ok s = true -> read_frame s = Some (b, r) ->
+  s = frame b ++ r /\ len b < 65536.
+Proof.
+  destruct s as [|hi [|lo t]]; cbn [read_frame]; try discriminate.
+  intros OK. cbn [bytes_ok forallb] in OK.
+  apply andb_prop in OK as [Hhi OK]. apply andb_prop in OK as [Hlo _].
+  unfold is_byte in Hhi, Hlo.
+  destruct (length t <? N.to_nat (hi * 256 + lo))%nat eqn:Lt; [discriminate|].
+  apply Nat.ltb_ge in Lt. intros [= <- <-].
+  assert (Lb : length (firstn (N.to_nat (hi * 256 + lo)) t) = N.to_nat (hi * 256 + lo)).
+  { apply firstn_length_le. exact Lt. }
+  split; [|unfold len; rewrite Lb, N2Nat.id; lia].
+  unfold frame, len. rewrite Lb, N2Nat.id.
+  assert (D : (hi * 256 + lo) / 256 = hi).
+  { rewrite N.div_add_l by discriminate. rewrite N.div_small by lia. lia. }
+  assert (M : (hi * 256 + lo) mod 256 = lo).
+  { rewrite N.add_comm, N.mod_add by discriminate. apply N.mod_small. lia. }
+  rewrite D, M. cbn [app]. rewrite firstn_skipn. reflexivity.
+Qed.
+
+(* the listener's handshake takes exactly its two frames from the stream; whatever the dialer sent
+   behind message 3 (early data) is left, untouched, for the NoiseSocket *)
+Lemma listener_reads_exact s m1 m3 rest :
+  bytes_ok s = true -> listener_reads s = Some (m1, m3, rest) ->
+  s = frame m1 ++ frame m3 ++ rest.
+Proof.
+  intros OK. unfold listener_reads.
+  destruct (read_frame s) as [[a r1]|] eqn:R1; [|discriminate].
+  destruct (read_frame r1) as [[c r3]|] eqn:R3; [|discriminate].
+  intros [= <- <- <-].
+  destruct (read_frame_exact _ _ _ OK R1) as [E1 _].
+  assert (OK1 : bytes_ok r1 = true).
+  { rewrite E1 in OK. unfold bytes_ok in OK |- *. rewrite forallb_app in OK.
+    apply andb_prop in OK as [_ OK]. exact OK. }
+  destruct (read_frame_exact _ _ _ OK1 R3) as [E3 _].
+  rewrite E1 at 1. rewrite E3 at 1. reflexivity.
+Qed.
+
+Lemma listener_reads_frames m1 m3 rest :
+  len m1 < 65536 -> len m3 < 65536 ->
+  listener_reads (frame m1 ++ frame m3 ++ rest) = Some (m1, m3, rest).
+Proof.
+  intros L1 L3. unfold listener_reads.
+  rewrite (read_frame_frame m1 _ L1), (read_frame_frame m3 _ L3). reflexivity.
+Qed.
+
+(* the identity payload of an honest node has 36 + 2 + 64 + 2 = 104 bytes, so its three messages
+   have 32, 200 and 168 bytes: they fit the write buffers of first_message (256) and
+   second_message (2048) and the u16 length prefix *)
+Lemma honest_payload_length sign idk static :
+  length idk = 32%nat -> length (sign idk (DOMAIN ++ static)) = 64%nat ->
+  length (honest_payload sign idk static) = 104%nat.
+Proof.
+  intros Lk Ls. unfold honest_payload, encode_payload, V.C18.Model.encode_ed25519.
+  repeat (rewrite app_length || cbn [length]). rewrite Ls.
+  cbn. rewrite ?app_length. cbn [length]. lia.
 Qed.
